@@ -52,6 +52,11 @@ def main():
     try:
         touched = sorted(set(os.path.dirname(m) for m in re.findall(r"^\+\+\+ b/(\S+)", open(patch).read(), re.M)))
         before = passing(wt, touched, tags)
+        # stale test files of the package that do not compile: moved aside in the scratch worktree
+        if "--aside" in opts:
+            for a in opts[opts.index("--aside") + 1].split(","):
+                if os.path.exists(os.path.join(wt, a)):
+                    os.rename(os.path.join(wt, a), os.path.join(wt, a + ".aside"))
         os.makedirs(os.path.dirname(os.path.join(wt, dest)), exist_ok=True)
         shutil.copy(os.path.join(src, demo[0]), os.path.join(wt, dest))
         rc0, out0 = sh(["go", "test"] + demo_args, wt)
